@@ -720,7 +720,61 @@ class IQPut(Unit):
                           z3.And(z3.BoolVal(len(puts) == 1), puts[0][0] == self.x, z3.If(self.can, (puts[0][1] == self.timeout) if puts[0][1] is not None else z3.BoolVal(False), z3.BoolVal(puts[0][1] is None))))
 
 
-UNITS_IQ_EXTRA = [IQInit, IQInitStop, IQInitProcess, IQInitMpSimple, IQInitMpSimpleStop, IQState, IQPut]
+class IQIter(Unit):
+    """IterableQueue.__iter__: hands out exactly what successive __next__() calls return, each once and in order -- whatever the values are (0, '', an
+    empty batch are legitimate items) -- until __next__ raises StopIteration, and then ends; any other exception of __next__ (the queue's own timeout,
+    a stop request) passes through unchanged.  `__next__` is under its own contract (unit C17:IterableQueue.__next__); here it is an arbitrary source."""
+    prop = 'C17'
+    file = F
+    qual = 'IterableQueue.__iter__'
+    consumer_may_stop = True
+    assumed_contracts = ('self.__next__(): unit C17:IterableQueue.__next__',)
+    canaries = (('a falsy item ends the iteration', '                yield self.__next__()', '                z = self.__next__()\n                if not z:\n                    break\n                yield z', 'exhausted'),
+                ('every item handed out twice', '                yield self.__next__()', '                z = self.__next__()\n                yield z\n                yield z', 'invariant preserved'),
+                ('every other item skipped', '                yield self.__next__()', '                self.__next__()\n                yield self.__next__()', 'invariant preserved'),
+                ('other errors of __next__ swallowed', 'except StopIteration:', 'except Exception:', 'own error'))
+
+    def setup(self, ex):
+        from pyvc.models import Source
+        st = St()
+        self.src = Source(ex, 'src', may_raise='BaseException')
+        self.src.init(st)
+        st.ghost['out'] = V.EMPTY
+
+        def nxt(e, s, a, k, n):
+            outs = []
+            for kind, s1, x in self.src.pull(e, s, n):
+                if kind == 'stop':
+                    si = fresh('stopiter')
+                    s1 = s1.fork().assume(V.ucls(si) == V.K['StopIteration'], *V.cls_facts(si))
+                    outs.append(('raise', s1, si))
+                elif kind == 'raise':
+                    outs.append(('raise', s1, x))
+                else:
+                    outs.append(('ok', s1, x))
+            return outs
+        st.env['self'] = Rec(ex, 'self', immutable=True, methods={'__next__': Fn(nxt)})
+        return st
+
+    @property
+    def loops(self):
+        live = lambda s: z3.And(z3.Not(self.src.done(s)), z3.Not(self.src.failed(s)))
+        return {0: LoopSpec(inv=lambda s, ex: z3.And(live(s), s.ghost['out'] == self.src.seen(s)))}
+
+    def post(self, ex, outs):
+        for k, s, p in outs:
+            out, seen = s.ghost['out'], self.src.seen(s)
+            if k in ('normal', 'return'):
+                ex.oblige(s, 'exit(exhausted): every value __next__ returned was handed out, once, in order, and __next__ has raised StopIteration',
+                          z3.And(out == seen, self.src.done(s)))
+            elif k == 'raise':
+                own = z3.And(self.src.failed(s), p == s.ghost.get('src.error', p), out == seen)
+                stopped = z3.And(V.isinst(p, 'GeneratorExit'), out == seen)
+                ex.oblige(s, 'exit(raise): __next__\'s own error, unchanged, after everything before it was handed out -- or the consumer stopped',
+                          z3.Or(own, stopped))
+
+
+UNITS_IQ_EXTRA = [IQInit, IQInitStop, IQInitProcess, IQInitMpSimple, IQInitMpSimpleStop, IQState, IQPut, IQIter]
 
 UNITS = UNITS_IQ_EXTRA + [NextUnit, PutEndUnit, RenewUnit, GetPutUnit, GetPutUnitNoTimeout, RQGet, RQPut, C17Lemma]
 SCENARIOS = [('', 'replay/scenarios/c17_double_end_marker.py')]
